@@ -26,7 +26,7 @@ def decoys(tier):
                   ("comment after code", "fn f() { let a = 1; // %s;%s}%s" % (body, nl, end)),
                   ("comment directly after a real statement", 'fn f() {%s    info!(ref = 7; "[ref: 7] real");%s    // %s;%s}%s' % (nl, nl, body, nl, end)),
                   ("last line is a comment", 'fn f() {%s    info!(ref = 7; "[ref: 7] real");%s}%s// %s;%s' % (nl, nl, nl, body, end))]
-    # macros that are not configured (only log::info is)
+    # macros that are not configured (log::info and tracing::warn are: log::warn and tracing::info are NOT)
     for name in ("other", "my_info", "info_", "infos", "in", "slog::info", "log2::info", "tracing::info", "crate::log::info", "log::infos", "log::warn", "Info", "INFO"):
         d.append(("unconfigured macro %s" % name, 'fn f() {\n    %s!("decoy");\n}\n' % name))
     # a different module path written non-contiguously (rustc accepts whitespace and comments between path segments)
@@ -64,7 +64,7 @@ def run(tier, seed):
             proj = scratch + ("/ps" if structured else "/pu")
             os.makedirs(proj + "/src")
             with open(proj + "/Breadlog.yaml", "w") as f:
-                f.write("source_dir: ./src\nuse_cache: false\nrust:\n  structured: %s\n  log_macros:\n    - module: log\n      name: info\n" % ("true" if structured else "false"))
+                f.write("source_dir: ./src\nuse_cache: false\nrust:\n  structured: %s\n  log_macros:\n    - module: log\n      name: info\n    - module: tracing\n      name: warn\n" % ("true" if structured else "false"))
             files = {}
             for i, (kind, txt) in enumerate(ds):
                 p = "%s/src/d%03d.rs" % (proj, i)
@@ -97,7 +97,7 @@ def run(tier, seed):
                                           "src": "src/parser/rust_grammar.pest", "sline": None, "site_text": "", "extra": {"failing_input": "(whole decoy tree)", "what": "exit %d" % c.returncode}})
         res.update({"evaluations": n, "distinct_nontrivial": n,
                     "rule": "decoys: commented-out statements (line/doc/block, LF and CRLF, with and without a final newline, after code, after a real statement), "
-                            "unconfigured macro names (prefix/suffix/other module/case variants of the configured log::info), the configured name without a literal message, "
+                            "unconfigured macro names (prefix/suffix/other module/case variants of the configured log::info and tracing::warn, incl. the crosswise log::warn / tracing::info), the configured name without a literal message, "
                             "macro-like text inside string literals with escaped quotes; one decoy per file, both reference styles; every decoy is non-trivial (it contains "
                             "text that looks like a log statement)",
                     "samples": [{"kind": k, "text": t} for k, t in ds[:3]], "exhaustive": True, "decoys": len(ds), "wall_s": round(time.time() - t0, 1)})
